@@ -287,6 +287,20 @@ def known_findings(prop=None):
     return out
 
 
+PANICS = []       # panics of the proxy observed while a scenario ran (note_panics)
+
+
+def note_panics(scenarios, outs):
+    """A request handler or a command of the real code panicked during a scenario (net/http's own abort signal apart):
+    whatever property the scenario was generated for, the request / command did not get its proper answer."""
+    for j, o in enumerate(outs):
+        for r in o.get("results", []):
+            pv = r.get("panic")
+            if pv and "abort Handler" not in str(pv):
+                PANICS.append({"scenario": scenarios[j] if j < len(scenarios) else None, "step": r.get("id"), "op": r.get("op"),
+                               "panic": str(pv)[:2000]})
+
+
 class Result:
     def __init__(self, prop, tier, seed):
         self.prop = prop
@@ -315,6 +329,11 @@ class Result:
             self.known.append(what)
 
     def finish(self, level="proof"):
+        if PANICS and not self.violations:
+            self.violation("panic", {"property": self.prop, "seed": self.seed, "tier": self.tier,
+                                     "what": "the proxy panicked while serving a request / executing a command of this scenario "
+                                             "(the client gets no answer; a panic in a command handler ends the process)",
+                                     "panics": len(PANICS), "first": json.loads(json.dumps(PANICS[0], default=lambda b: b.decode("latin1")))})
         ev = {
             "property_id": self.prop,
             "tier": self.tier,
